@@ -89,7 +89,15 @@ def oracle_fit(ctx, thorough, forced=None):
         nx, nu = rng.randint(1, 2), 1
     X, kw, A0, B0 = lc.lin_data(rng, nx, nu, radius=radius, noise=rng.choice([0.0, 0.02, 0.1]), n_min=10 if radius > 1.2 else 12)
     X, data_form = lc.maybe_int_data(rng, X, kw)
-    if forced is not None and len(forced) > 4:
+    scaled = forced is not None and forced[-1] == 'scaled'
+    if scaled:
+        # state features of clearly different magnitudes (one state in other units), several iterations, active constraint
+        nx = rng.randint(3, 4)
+        X, kw, A0, B0 = lc.lin_data(rng, nx, nu, n_eps=3, radius=1.02, noise=0.01, n_min=22)
+        X = np.array(X, dtype=float)
+        X[:, 1] *= rng.choice([8.0, 12.0, 20.0])
+        data_form = 'first state in other units (x8..x20)'
+    if forced is not None and len(forced) > 4 and not scaled:
         # integer samples (sensor counts, no episode column) of a slightly unstable NON-NORMAL system: the constrained A
         # keeps a diagonal entry above one although its eigenvalues are inside the bound
         rs = np.random.RandomState(rng.randint(0, 2 ** 31 - 1))
@@ -104,7 +112,9 @@ def oracle_fit(ctx, thorough, forced=None):
         kw = {'n_inputs': 1, 'episode_feature': False}
         data_form = 'integer dtype, no episode feature, non-normal system'
     max_iter = rng.choice([1, 2, 5] + ([20] if thorough else []))
-    if forced is not None and len(forced) > 4:
+    if scaled:
+        max_iter = 10
+    if forced is not None and len(forced) > 4 and not scaled:
         max_iter = 5        # (with P = I only, every entry of a feasible A is below the bound)
     fam = rng.choice(['edmd', 'dmdc'])
     if forced is not None and len(forced) > 2:
@@ -221,7 +231,8 @@ def run(ctx):
     sweeps = [(rho, rad, fam) for rho in (1.1, 1.2) for rad in (1.4,) for fam in ('edmd', 'dmdc')] + \
              [(0.7, 1.4, 'edmd'), (0.7, 1.4, 'dmdc')] + \
              [(rho, 1.4, fam, cap) for rho in (0.3, 0.5) for fam in ('edmd', 'dmdc') for cap in (4, 6)] + \
-             [(0.95, 1.0, fam, None, 'int') for fam in ('edmd',) * 8 + ('dmdc',) * 3]
+             [(0.95, 1.0, fam, None, 'int') for fam in ('edmd',) * 8 + ('dmdc',) * 3] + \
+             [(rho, 1.0, fam, None, 'scaled') for rho in (0.8, 0.9) for fam in ('edmd', 'edmd', 'dmdc', 'dmdc')]
 
     def end_to_end(n, stop_at_first=False):
         for i in range(n + len(sweeps)):
